@@ -813,7 +813,7 @@ def impl_roundtrip(case, scratch):
             parts = ctx.node_to_wikitext(list(t1.children))
             each = "".join(ctx.node_to_wikitext(c) for c in t1.children)
             outs.append({"t1": _tree(t1), "w1": w1, "t2": _tree(t2), "w2": w2, "t3": _tree(t3),
-                         "list_ok": parts == each == w1})
+                         "list_ok": parts == w1, "each_same": each == w1})
         except BaseException as e:  # noqa
             import traceback
             tb = traceback.extract_tb(e.__traceback__)
